@@ -426,6 +426,23 @@ pub fn run(ctx: &Ctx, st: &mut Stats) {
         }
     }
     st.add("random_garbage_texts", ng);
+    // very long but well-formed decimals (in range): trailing / leading zeros, long mantissas with a compensating exponent
+    for t in tys.iter().filter(|t| t.from_str.is_some()) {
+        for z in [300usize, 801, 1000, 5000] {
+            let mid = (t.lo + t.hi) / 4.0;
+            for text in [
+                format!("{}.{}", mid.trunc() as i64, "0".repeat(z)),
+                format!("{}{}", "0".repeat(z), mid.trunc().abs() as i64),
+                format!("{}{}e-{}", mid.trunc() as i64, "0".repeat(z), z),
+                format!("0.{}1", "0".repeat(z)),
+                format!("{}.{}5", t.hi as i64 - 1, "9".repeat(z)),
+            ] {
+                let c = Case { ty: t.name.into(), route: "text".into(), value: None, text: Some(text) };
+                check(ctx, st, &c);
+            }
+        }
+    }
+    st.count("long_well_formed_texts");
     // the SAME text pushed through all four text routes one after the other, in a seeded order (a value accepted
     // by a wider type must still be rejected by a narrower one: no state may leak between the routes)
     let nx = ctx.quota(100_000, 6_000_000);
